@@ -559,6 +559,31 @@ theorem Fn.isGradAt_realArg {n : Nat} (f : Fn ℝ n) (x : CVec ℝ n) (h : f.Smo
   rw [reInner_realPart_conj _ _ hd]
   exact f.jaxContract x h d
 
+/-! ### uniqueness of the gradient -/
+
+/-- unit direction `z·eᵢ` -/
+def single (i : Fin n) (z : Cx ℝ) : CVec ℝ n := fun j => if j = i then z else 0
+
+theorem reInner_single (g : CVec ℝ n) (i : Fin n) (z : Cx ℝ) :
+    reInner g (single i z) = (g i).re * z.re + (g i).im * z.im := by
+  rw [reInner_eq, Finset.sum_eq_single i]
+  · simp [single]
+  · intro j _ hj
+    simp [single, hj]
+  · intro h; exact absurd (Finset.mem_univ _) h
+
+/-- the gradient in the sense of C07 is unique: `Re⟪g,d⟫ = Re⟪g',d⟫` for all `d` forces `g = g'` -/
+theorem isGradAt_unique (f : CVec ℝ n → ℝ) (x g g' : CVec ℝ n) (h : IsGradAt f x g) (h' : IsGradAt f x g') :
+    g = g' := by
+  have key : ∀ d, reInner g d = reInner g' d := fun d => (h d).unique (h' d)
+  funext i
+  have h1 := key (single i ⟨1, 0⟩)
+  have h2 := key (single i ⟨0, 1⟩)
+  rw [reInner_single, reInner_single] at h1 h2
+  simp at h1 h2
+  exact Cx.ext' h1 h2
+
+
 /-! ### second derivative of the squared-l2 loss along a line -/
 
 theorem sqL2Loss_along (s : ℝ) (A : Mat ℝ m n) (y : CVec ℝ m) (w : Vec ℝ m) (x d : CVec ℝ n) (t : ℝ) :
